@@ -600,7 +600,7 @@ func c09Case(rep *report.Report, k *kitchen, basePath, path, baseName string, at
 				rep.Violation("C09|false-report|"+sigBase, label+": nothing is inconsistent but the check reported "+reports[0].msg, replay)
 			}
 			if p := matchItems(wantItems, reports, false); p != "" {
-				rep.Violation("C09|check-only-incomplete|"+sigBase+"|"+p, label+": "+p+fmt.Sprintf("\nreports: %q", reports), replay)
+				rep.Violation("C09|check-only-incomplete|"+sigBase+"|"+p, label+": "+p+fmt.Sprintf("\nreports: %v", reports), replay)
 			}
 		}
 		for _, it := range wantItems {
@@ -630,7 +630,7 @@ func c09Case(rep *report.Report, k *kitchen, basePath, path, baseName string, at
 	}
 	wantItems, wantTree := refIntegrity(corrupted, true)
 	if p := matchItems(wantItems, reports, true); p != "" {
-		rep.Violation("C09|fix-incomplete|"+sigBase+"|"+p, label+": "+p+fmt.Sprintf("\nreports: %q", reports), replay)
+		rep.Violation("C09|fix-incomplete|"+sigBase+"|"+p, label+": "+p+fmt.Sprintf("\nreports: %v", reports), replay)
 	}
 	fixedTree := snap()
 	if got, want := c09Norm(fixedTree), c09Norm(wantTree); !got.Equal(want) {
